@@ -629,8 +629,11 @@ func nativeReplayArch(replayPath, pkg, arch string) (string, string) {
 		// the input file does not fit the harness (stale witness or an engine /
 		// native disagreement): never a confirmation
 		return "diverged", out
-	case strings.Contains(out, "VERIF-REPLAY: failed "+rf.Assert), strings.Contains(out, "VERIF-REPLAY: failed"):
+	case strings.Contains(out, "VERIF-REPLAY: failed "+rf.Assert+"\n"):
 		return "confirmed", out
+	case strings.Contains(out, "VERIF-REPLAY: failed"):
+		// the native run fails, but not the assertion the solver refuted
+		return "failed-differently", out
 	case strings.Contains(out, "VERIF-REPLAY: passed"):
 		return "passed", out
 	case strings.Contains(out, "path diverged"):
